@@ -57,7 +57,7 @@ Theorem C20_protocols :
   (* JSON key cache of the generated load function, positive and negative (ExplicitNull) entries *)
   (forall ks K c r, cont_ok K c r -> M K (key_loop ks c) r) /\
   (* FIELD_TO_DEFAULT, writer side (the READERS of a half-filled dict are refuted below) *)
-  (forall fx cd K c r, cont_ok K c r -> M K (p_defaults fx cd c) r) /\
+  (forall fx tid cd K c r, (forall o K', incl K K' -> M K' (c o) r) -> M K (p_defaults fx tid cd c) r) /\
   (* lookups.environ: Env.load_environ() *)
   (forall tid K c r, (forall K', incl K K' -> In (T_ENVIRON, 0) K' -> M K' c r) -> M K (p_load_environ tid false c) r) /\
   (* Env.var_names (cached class property) read after environ is loaded *)
